@@ -19,7 +19,7 @@ RULE = (
     "the settable clock only). target = a bare Timer, or the ARTIM / network-idle timer of a real Association's DUL "
     "(timeouts set through Association.acse_timeout / network_timeout, expiry read as the DUL reads it). After every "
     "step `expired` and `remaining` are compared with an independent elapsed-time model (integer ticks: exact). "
-    "Non-trivial = a wall-clock step occurs while the timer is running with a finite timeout, or a query falls within "
+    "A second sub-check ('invivo', E4) runs a real acceptor whose ARTIM timer (silent peer after connecting) or network-idle timer (silent peer after association) is the only thing that can end the wait, with the wall clock stepped by +-1 h at generated scheduler steps: the reactor's reaction must come within [timeout, timeout + 1.5 s] of elapsed time. Non-trivial = a wall-clock step occurs while the timer is running with a finite timeout, or a query falls within "
     "+-1 tick of the expiry boundary; distinct = distinct case."
 )
 ASSUMPTIONS = [
@@ -272,7 +272,66 @@ def no_wall_strategy(max_steps=40):
     return strategy(max_steps).map(lambda c: dict(c, steps=[s for s in c["steps"] if s[0] != "wall"] or [["start"]]))
 
 
+# ------------------------------------------------------------------------------------------ in vivo (E4): the reactor acts on the expiry
+def check_invivo(ctx, case):
+    """A real acceptor under the E4 scheduler (virtual monotonic time, settable wall offset). 'artim': a raw peer connects and stays silent:
+    the provider must close the connection when the ARTIM timer (= ACSE timeout) has run out. 'idle': the peer associates and then stays
+    silent: the association must be aborted when the network timeout has run out. The other timeouts are 60 s, so nothing else can end the
+    wait; the wall clock is stepped by +-1 h at generated scheduler steps. Oracle: the reaction (Evt18 transition / EVT_ABORTED) happens
+    within [timeout, timeout + 1.5 s] of virtual elapsed time after the timer was started."""
+    from engines import ps38ref as R8
+    from engines import scenario as SC
+    from vlib.core import HarnessError
+
+    kind, T = case["kind"], case["timeout"]
+    to = {"acse": T if kind == "artim" else 60, "dimse": 60, "network": T if kind == "idle" else 60, "connection": 5}
+    script = ([] if kind == "artim" else [["send", R8.ref_encode(SC.RAW_RQ)], ["recv_pdu", 10]]) + [["recv_until_close", T + 20], ["close"]]
+    sc = {"timeouts": to, "max_steps": 60000, "quantum": 0.1, "acceptor": {"kind": "pynetdicom", "handlers": {}},
+          "requestors": [{"kind": "raw", "script": script}],
+          "schedule": {"policy": case["policy"], "seed": case["seed"], "preemptions": [], "nudges": case["nudges"]}}
+    out = SC.run(sc)
+    peer = out["raw"][0]
+    if peer.error:
+        raise HarnessError(f"raw peer failed: {peer.error}")
+    stepped = sorted({k for _, k in case["nudges"]})
+    ctx.note(case, nontrivial=bool(stepped), classes=["invivo", f"invivo:{kind}", out["how"]] + [f"invivo:clock-step:{k}" for k in stepped])
+    ev = out["_rec_acc"].events
+    if kind == "artim":
+        t0 = next((e[0] for e in ev if e[2] == "EVT_FSM_TRANSITION" and e[3][2] == "AE-5"), None)
+        t1 = next((e[0] for e in ev if e[2] == "EVT_FSM_TRANSITION" and e[3][1] == "Evt18"), None)
+        what = "ARTIM expiry (Evt18) in Sta2"
+    else:
+        recv = [e[0] for e in ev if e[2] == "EVT_PDU_RECV"]  # the A-ASSOCIATE-RQ: the idle timer is restarted by every PDU received
+        t0 = recv[-1] if recv else None
+        t1 = next((e[0] for e in ev if e[2] == "EVT_ABORTED"), None)
+        what = "network-timeout abort of the idle association"
+    if t0 is None:
+        raise HarnessError(f"start event not seen: {[(e[0], e[2]) for e in ev][:12]}")
+    if out["how"] == "budget" and t1 is None:
+        ctx.fail("invivo-never", f"{kind}", f"{what} never happened within the step budget (virtual t={out['report']['now']}, timer started at {t0}, timeout {T}); wall steps {case['nudges']}")
+        return
+    if t1 is None:
+        ctx.fail("invivo-never", f"{kind}", f"{what} never happened (run ended at t={out['report']['now']}; timer started at {t0}, timeout {T}); wall steps {case['nudges']}")
+        return
+    dt = t1 - t0
+    if dt < T - 0.11:
+        ctx.fail("invivo-early", f"{kind}", f"{what} after {dt:.3f} s of elapsed time, timeout {T} s; wall steps {case['nudges']}")
+    elif dt > T + 1.5:
+        ctx.fail("invivo-late", f"{kind}", f"{what} only after {dt:.3f} s of elapsed time, timeout {T} s; wall steps {case['nudges']}")
+
+
+CHECKS["invivo"] = check_invivo
+
+
 def run(ctx):
+    from hypothesis import strategies as st
+
+    invivo = st.fixed_dictionaries({
+        "kind": st.sampled_from(["artim", "idle"]), "timeout": st.sampled_from([1, 2, 3]),
+        "policy": st.sampled_from(["fifo", "random"]), "seed": st.integers(0, 9999),
+        "nudges": st.one_of(st.just([]), st.lists(st.tuples(st.integers(0, 120), st.sampled_from(["wall-", "wall+"])), min_size=1, max_size=3)).map(lambda l: [list(x) for x in l]),
+    })
+    ctx.hyp("invivo", invivo, 40 if ctx.quick else 300)
     n = 2500 if ctx.quick else 12000
     ctx.hyp("seq", strategy(), n)
     ctx.hyp("seq", no_wall_strategy(), n)
